@@ -1431,9 +1431,17 @@ impl Gen {
             4 => {
                 let vn = self.ensure_vec();
                 self.need("f0");
-                let v = self.rng.upto(28);
+                self.need("fv");
+                self.need("f2");
+                let v = self.rng.upto(33);
                 (
                     match v {
+                        // what apply spreads must be a list: a pair chain that ends in something else is not
+                        28 => call("apply", vec![sym("+"), call("cons", vec![int(1), int(2)])]),
+                        29 => call("apply", vec![sym("fv"), call("cons", vec![int(1), call("cons", vec![int(2), int(3)])])]),
+                        30 => call("apply", vec![sym("f2"), int(1), call("cons", vec![int(2), int(3)])]),
+                        31 => call("make-vector", vec![Sx::Str("3".into()), int(0)]),
+                        32 => call("vector-length", vec![int(5)]),
                         // the wrong-typed argument comes after one that already decides the result
                         22 => call("*", vec![int(0), Sx::Str("s".into())]),
                         23 => call("*", vec![int(3), call("-", vec![int(2), int(2)]), quote(sym("x"))]),
@@ -1691,8 +1699,8 @@ impl Gen {
                 Some((list(vec![sym(&a), int(k)]), "tail-mutual".into(), int_valued))
             }
             6 => {
-                // through apply
-                if !Self::is_call_form(&e) {
+                // through apply (the operator must be something that is a value: not a macro keyword)
+                if !Self::is_call_form(&e) || matches!(&e, Sx::List(v) if v[0].as_sym().map(|h| h.starts_with("txm")).unwrap_or(false)) {
                     return None;
                 }
                 let v = match &e {
